@@ -172,6 +172,12 @@ func init() {
 		},
 		"vpRunTasks": func(e *Engine, fr *Frame, args []Value) (Value, bool) {
 			e.st.progress-- // polling for the others is not progress
+			if !e.st.curGor.isMain {
+				if !e.yieldOnce() {
+					return nil, false
+				}
+				return nil, true
+			}
 			if !e.yieldMain() {
 				return nil, false // re-executed when main is scheduled again
 			}
